@@ -324,6 +324,36 @@ func nonces(txs types.Transactions) []uint64 {
 	return out
 }
 
+// gapClass names a nonce gap inside one account's pending list. When the transaction right below
+// the gap has been mined in some (necessarily abandoned) branch, the low part of the list was
+// re-injected by a reset: that is the known partial re-injection defect, kept apart from every
+// other way of producing a gap.
+func (h *hist) gapClass(ptxs types.Transactions) (string, bool) {
+	for i := 1; i < len(ptxs); i++ {
+		if ptxs[i].Nonce() != ptxs[i-1].Nonce()+1 {
+			if h.fc.minedSomewhere(ptxs[i-1].Hash()) {
+				return "pending-nonce-gap-after-reinjection", true
+			}
+			return "pending-nonce-gap", true
+		}
+	}
+	return "", false
+}
+
+// internalsClass maps an index-walk error to a violation class.
+func (h *hist) internalsClass(err error) string {
+	ie, ok := err.(*core.VerifInternalError)
+	if !ok {
+		return "internals"
+	}
+	if ie.Class == "pending-nonce-gap" && len(ie.Txs) > 0 {
+		if cl, gap := h.gapClass(ie.Txs); gap {
+			return "internals:" + cl
+		}
+	}
+	return "internals:" + ie.Class
+}
+
 // checkSnapshot judges one atomic Content() snapshot with the conditions that hold whenever the
 // pool lock is free (usable from concurrent samplers). Returns the view, or nil after a violation.
 func (h *hist) checkSnapshot(pend, queued map[common.Address]types.Transactions, when string) *view {
@@ -358,11 +388,9 @@ func (h *hist) checkSnapshot(pend, queued map[common.Address]types.Transactions,
 		}
 	}
 	for a, ptxs := range pend {
-		for i := 1; i < len(ptxs); i++ {
-			if ptxs[i].Nonce() != ptxs[i-1].Nonce()+1 {
-				h.violation("pending-nonce-gap", fmt.Sprintf("%s: account %d pending nonces %v are not gap-free", when, h.idx[a], nonces(ptxs)))
-				return nil
-			}
+		if class, gap := h.gapClass(ptxs); gap {
+			h.violation(class, fmt.Sprintf("%s: account %d pending nonces %v are not gap-free", when, h.idx[a], nonces(ptxs)))
+			return nil
 		}
 		if q := queued[a]; len(q) > 0 && q[0].Nonce() <= ptxs[len(ptxs)-1].Nonce() {
 			h.violation("queued-not-above-pending", fmt.Sprintf("%s: account %d pending nonces %v, queued nonces %v", when, h.idx[a], nonces(ptxs), nonces(q)))
@@ -445,7 +473,11 @@ func (h *hist) checkQuiescent(when string, o checkOpts) *view {
 			return nil
 		}
 		if got := pool.Nonce(a); got != want {
-			h.violation("pool-nonce-mismatch", fmt.Sprintf("%s: account %d: Nonce() = %d, head nonce %d + %d pending = %d", when, i, got, t.nonce, len(ptxs), want))
+			class := "pool-nonce-mismatch"
+			if got < t.nonce {
+				class = "pool-nonce-below-account-nonce"
+			}
+			h.violation(class, fmt.Sprintf("%s: account %d: Nonce() = %d, head nonce %d + %d pending = %d", when, i, got, t.nonce, len(ptxs), want))
 			return nil
 		}
 		if len(qtxs) > 0 && qtxs[0].Nonce() == want {
@@ -518,11 +550,7 @@ func (h *hist) checkQuiescent(when string, o checkOpts) *view {
 		h.feat("queue-full")
 	}
 	if err := pool.VerifCheckInternals(); err != nil {
-		class := "internals"
-		if ie, ok := err.(*core.VerifInternalError); ok {
-			class = "internals:" + ie.Class
-		}
-		h.violation(class, fmt.Sprintf("%s: %v", when, err))
+		h.violation(h.internalsClass(err), fmt.Sprintf("%s: %v", when, err))
 		return nil
 	}
 	h.c.Evals(4 + len(hashes))
